@@ -89,6 +89,9 @@ func TakeSnap(o SnapOpts, roots map[string]string) Snap {
 						if i == len(parts)-2 && !d.IsDir() {
 							return nil // plain temp file directly inside
 						}
+						if (len(parts) == i+4 || (len(parts) == i+5 && !allDigits(parts[i+4]))) && parts[i+1] == "multipart" && !d.IsDir() {
+							return nil // named temp file of a part upload inside the upload directory (never listed as a part)
+						}
 						if i == len(parts)-2 && d.IsDir() && parts[i+1] == "multipart" {
 							// keep; but an empty multipart dir is bookkeeping too
 							ents, _ := os.ReadDir(p)
@@ -132,4 +135,16 @@ func (a Snap) Diff(b Snap, max int) []string {
 		out = append(out[:max], fmt.Sprintf("... %d more", len(out)-max))
 	}
 	return out
+}
+
+func allDigits(s string) bool {
+	if s == "" {
+		return false
+	}
+	for _, c := range s {
+		if c < '0' || c > '9' {
+			return false
+		}
+	}
+	return true
 }
